@@ -438,5 +438,11 @@ def sdl(name):
     return ' '.join('module %s { %s }' % (m, b) for m, b in mods.items())
 
 
+# groups that take part in the pairwise / chain explorations only through
+# their own focus-group pairs (C03 still describes every FAMILY member)
+NOT_PAIRED = set(INHCON) | set(CONREF)
+
+
 def names(quick):
-    return list(QUICK) if quick else list(FAMILY)
+    return list(QUICK) if quick else [n for n in FAMILY
+                                      if n not in NOT_PAIRED]
